@@ -5,18 +5,34 @@ import jsonpath_rfc9535 as jp
 from jsonpath_rfc9535 import JSONPathError
 
 
+class SubList(list):
+    """stands for any list subclass when a recorded case is rebuilt"""
+
+
+class SubStr(str):
+    """stands for any str subclass when a recorded case is rebuilt"""
+
+
 def jsonable(v):
-    """A JSON-able rendering that keeps bool/int/float and key order apart."""
-    if isinstance(v, bool) or v is None or isinstance(v, str):
+    """A JSON-able rendering that keeps bool/int/float and key order apart, and records whether a
+    container / string is an instance of a SUBCLASS of dict / list / str (rebuilt by unjsonable as
+    OrderedDict / SubList / SubStr)."""
+    if isinstance(v, bool) or v is None:
         return v
+    if isinstance(v, str):
+        return v if type(v) is str else {"$str": str(v), "$sub": type(v).__name__}
     if isinstance(v, int):
         return v
     if isinstance(v, float):
         return {"$float": repr(v)}
     if isinstance(v, list):
-        return [jsonable(x) for x in v]
+        items = [jsonable(x) for x in v]
+        return items if type(v) is list else {"$list": items, "$sub": type(v).__name__}
     if isinstance(v, dict):
-        return {"$obj": [[k, jsonable(x)] for k, x in v.items()]}
+        out = {"$obj": [[k, jsonable(x)] for k, x in v.items()]}
+        if type(v) is not dict:
+            out["$sub"] = type(v).__name__
+        return out
     return {"$py": type(v).__name__ + ":" + repr(v)[:80]}
 
 
@@ -26,8 +42,16 @@ def unjsonable(v):
     if isinstance(v, dict):
         if "$float" in v:
             return float(v["$float"])
+        if "$str" in v:
+            return SubStr(v["$str"])
+        if "$list" in v:
+            return SubList(unjsonable(x) for x in v["$list"])
         if "$obj" in v:
-            return {k: unjsonable(x) for k, x in v["$obj"]}
+            pairs = [(k, unjsonable(x)) for k, x in v["$obj"]]
+            if "$sub" in v:
+                import collections
+                return collections.OrderedDict(pairs)
+            return dict(pairs)
     return v
 
 
